@@ -1,19 +1,19 @@
----- MODULE MC_C11_quick_b_cat3 ----
+---- MODULE MC_C11_quick_d_onehot ----
 EXTENDS CircuitSys
-c_Dom == <<2, 2, 2>>
-c_KSet == {2}
+c_Dom == <<2, 3>>
+c_KSet == {1, 2}
 c_MaxK == 8
-c_MaxL == 5
-c_MaxIn == 3
-c_InKindSeq == <<"catp", "catl">>
-c_InnerKinds == {"had", "kron", "mix", "sum"}
-c_MaxAr == 3
+c_MaxL == 4
+c_MaxIn == 2
+c_InKindSeq == <<"catp">>
+c_InnerKinds == {"had", "mix", "sum"}
+c_MaxAr == 2
 c_FreeOrder == FALSE
 c_MaxOuts == 1
 c_MaxBases == 1
 c_MaxOps == 0
 c_OpSet == {}
-c_Scheme == 6
+c_Scheme == 5
 c_OnlySD == TRUE
 c_PolyDeg == 1
 c_DiffK == {1}
@@ -27,7 +27,7 @@ c_GradMod == 0
 c_QueryOn == TRUE
 c_J == 1
 c_EmitOps == {0}
-c_EmitMod == 40
+c_EmitMod == 8
 c_EmitRes == 0
 c_EmitSmall == 3
 c_EmitFilter == "all"
